@@ -494,7 +494,16 @@ func GenProg(r *RNG, q *big.Int, cfg GenCfg) *Prog {
 	if nvars > first {
 		no := 1 + r.Intn(3)
 		for i := 0; i < no; i++ {
-			p.Outs = append(p.Outs, first+r.Intn(nvars-first))
+			o := first + r.Intn(nvars-first)
+			// never expose an accumulator that was handed to MulAcc (documented: it may have been mutated): take the next
+			// live result instead (no extra random draw: the rest of the stream is unchanged)
+			for k := 0; k < nvars-first && dead[o]; k++ {
+				o = first + (o-first+1)%(nvars-first)
+			}
+			if dead[o] {
+				continue
+			}
+			p.Outs = append(p.Outs, o)
 		}
 	}
 	return p
